@@ -131,4 +131,43 @@ theorem ga_encWeightSmall_plan {α : Type} (H : MatmulHelper) (zero : α) (w : N
   rw [ga_unflat2_flat]
   simp only [encWeightSmall, List.map_map, Function.comp_def, ga_toHelper]
 
+/-! ### `decrypt_outputs_bfv`: the read loop of one (batch block, output block) polynomial -/
+
+/-- **generated (destination index, read position) pairs of one output block = `outPos`**: rows `li..ui` (at most `batch_block`), output columns
+    `lj..uj` (at most `output_block`); the read `buffer[POS]` (buffer resized to `poly_degree`) is kept as `assert!(POS < poly_degree)` -/
+theorem ga_mm_output_positions_eq (H : MatmulHelper) (li ui lj uj : Nat) (hfit : H.batch_block * H.input_block * H.output_block ≤ H.poly_degree)
+    (hn : H.poly_degree < 2^64) (hib : 1 ≤ H.input_block) (hrows : ui - li ≤ H.batch_block) (hcols : uj - lj ≤ H.output_block)
+    (hsrc : ui * H.output_dims + uj < 2^64) :
+    mm_output_positions H li ui lj uj = .ok ((pairs (ui - li) (uj - lj)).flatMap fun p =>
+      [(li + p.1) * H.output_dims + (lj + p.2), outPos (ga_toHelper H) p.1 p.2]) := by
+  have inner : ∀ a, a < ui - li → ∀ j l, lj ≤ j → j < lj + (uj - lj) →
+      mm_output_positions_loop1 H li lj (li + a) j l
+        = .ok (.next (l ++ [(li + a) * H.output_dims + j, outPos (ga_toHelper H) a (j - lj)])) := by
+    intro a ha j l h1 h2
+    have hb := ga_block_le (ib := H.input_block) (show a < H.batch_block by omega) (show j - lj < H.output_block by omega)
+    have e1 : a * H.input_block ≤ a * H.input_block * H.output_block := Nat.le_mul_of_pos_right _ (by omega)
+    have e4 : (li + a) * H.output_dims ≤ ui * H.output_dims := Nat.mul_le_mul_right _ (by omega)
+    simp only [mm_output_positions_loop1, ga_ckSub (show li ≤ li + a by omega), Nat.add_sub_cancel_left,
+      ga_ckMul (show a * H.input_block < 2^64 by omega), ga_ckMul (show a * H.input_block * H.output_block < 2^64 by omega),
+      ga_ckSub h1, ga_ckMul (show (j - lj) * H.input_block < 2^64 by omega),
+      ga_ckAdd (show a * H.input_block * H.output_block + (j - lj) * H.input_block < 2^64 by omega),
+      ga_ckAdd (show a * H.input_block * H.output_block + (j - lj) * H.input_block + H.input_block < 2^64 by omega),
+      ga_ckSub (show 1 ≤ a * H.input_block * H.output_block + (j - lj) * H.input_block + H.input_block by omega), ga_ok_bind,
+      if_pos (show a * H.input_block * H.output_block + (j - lj) * H.input_block + H.input_block - 1 < H.poly_degree by omega),
+      ga_ckMul (show (li + a) * H.output_dims < 2^64 by omega), ga_ckAdd (show (li + a) * H.output_dims + j < 2^64 by omega)]
+    simp [pure, Except.pure, outPos, ga_toHelper]
+  have outer : ∀ i l, li ≤ i → i < li + (ui - li) →
+      mm_output_positions_loop2 H li lj uj i l
+        = .ok (.next (l ++ (List.range (uj - lj)).flatMap fun b => [i * H.output_dims + (lj + b), outPos (ga_toHelper H) (i - li) b])) := by
+    intro i l h1 h2
+    obtain ⟨a, rfl⟩ : ∃ a, i = li + a := ⟨i - li, by omega⟩
+    simp only [mm_output_positions_loop2,
+      ga_forUp_pushL _ (fun j => [(li + a) * H.output_dims + j, outPos (ga_toHelper H) a (j - lj)]) lj (uj - lj) l
+        (fun j l h1 h2 => inner a (by omega) j l h1 h2), ga_ok_bind, Nat.add_sub_cancel_left]
+    rfl
+  simp only [mm_output_positions,
+    ga_forUp_pushL _ (fun i => (List.range (uj - lj)).flatMap fun b => [i * H.output_dims + (lj + b), outPos (ga_toHelper H) (i - li) b])
+      li (ui - li) [] (fun i l h1 h2 => outer i l h1 h2), ga_ok_bind, List.nil_append, Nat.add_sub_cancel_left]
+  rw [ga_pairs_flat (ui - li) (uj - lj) (fun a b => (li + a) * H.output_dims + (lj + b)) (fun a b => outPos (ga_toHelper H) a b)]
+
 end HC
